@@ -125,13 +125,23 @@ Section CompObj.
                    jin_ok (skind s') v = true /\ valid_kind sp pok n0 (skind s') v = true.
   Hypothesis Hnd : NoDup (map fst mem).
 
+  (* the value the constructor stores for a property that was not given: its default *)
+  Definition stored_default (s : slot) (x : pval) : Prop :=
+    match sdef s, skind s with
+    | DFixed, KFixed fv _ => x = PJ (JStr fv)
+    | DNow, KTime p c0 => exists r, ts_clean_now (vr_year_pad vr) p c0 (e_now ev) = Ok r /\ x = PTime (fst r) (snd r)
+    | DUuid4, KId prefix _ => x = PJ (JStr (prefix ++ e_uuid4 ev))
+    | DConst j, _ => x = PJ j
+    | _, _ => False
+    end.
+
   (* what is stored under a name *)
   Definition ent_ok (k : ustring) (x : pval) : Prop :=
     match alookup k mem with
     | Some v => exists s s', find_slot c k = Some s /\ find_slot sc k = Some s' /\
                              kind_accepts (skind s) (skind s') = true /\ jin_ok (skind s') v = true /\
                              jsame (skind s') v (encode true x) /\ shape_ok (skind s) x
-    | None => exists s, find_slot c k = Some s /\ sdef s <> DNone
+    | None => exists s, find_slot c k = Some s /\ sdef s <> DNone /\ stored_default s x
     end.
 
   Lemma uuid4_ok vv : check_uuid vr (e_uuid4 ev) vv false = Ok true.
@@ -205,8 +215,8 @@ Section CompObj.
     - (* absent: the default *)
       pose proof (Hdef s Hs) as Hdw. unfold default_wf in Hdw.
       unfold check_property, default_value. fold n. rewrite Hfresh.
-      assert (Default : forall pv, sdef s <> DNone -> ent_ok n pv).
-      { intros pv Hne. unfold ent_ok. rewrite Ev. exists s. auto. }
+      assert (Default : forall pv, sdef s <> DNone -> stored_default s pv -> ent_ok n pv).
+      { intros pv Hne Hsd. unfold ent_ok. rewrite Ev. exists s. auto. }
       assert (NoV : forall st2 : list (ustring * pval), (forall v : jvalue, None = Some v -> amem n st2 = true)) by (intros; discriminate).
       destruct (sdef s) eqn:Ed.
       + (* none *)
@@ -222,7 +232,8 @@ Section CompObj.
         { intros k. destruct (ustr_eqb k n) eqn:E.
           - apply ustr_eqb_eq in E. subst k. rewrite !alookup_aset_same. reflexivity.
           - rewrite !alookup_aset_other by auto. reflexivity. }
-        destruct (Put (PJ (JStr v)) (Default _ ltac:(discriminate))) as (P1 & P2 & P3).
+        assert (SD : stored_default s (PJ (JStr v))) by (unfold stored_default; rewrite Ed, Ek; reflexivity).
+        destruct (Put (PJ (JStr v)) (Default _ ltac:(discriminate) SD)) as (P1 & P2 & P3).
         split; [intros k x Hx; rewrite Eq in Hx; eauto|]. split; [|split; [|apply NoV]].
         * intros k Hk. unfold amem in *. rewrite Eq in Hk. apply P2. exact Hk.
         * intros k Hk. unfold amem in *. rewrite Eq. apply P3. exact Hk.
@@ -234,7 +245,9 @@ Section CompObj.
         destruct (Put (PTime (Timestamp.stored_trunc (ts_prec p) (ts_constr c0) (e_now ev))
                              (Timestamp.format (if vr_year_pad vr then Timestamp.Pad4 else Timestamp.Unpadded) (ts_prec p) (ts_constr c0)
                                 (Timestamp.stored_trunc (ts_prec p) (ts_constr c0) (e_now ev))))
-                      (Default _ ltac:(discriminate))) as (P1 & P2 & P3).
+                      (Default _ ltac:(discriminate)
+                         ltac:(unfold stored_default; rewrite Ed, Ek; unfold ts_clean_now; rewrite Hnow; eexists; split; reflexivity)))
+          as (P1 & P2 & P3).
         split; [auto|]. split; [auto|]. split; [auto|apply NoV].
       + (* uuid4 *)
         destruct (skind s) eqn:Ek; try discriminate Hdw. cbn [bind fst snd].
@@ -246,7 +259,8 @@ Section CompObj.
         { intros k pvv. destruct (ustr_eqb k n) eqn:E.
           - apply ustr_eqb_eq in E. subst k. rewrite !alookup_aset_same. reflexivity.
           - rewrite !alookup_aset_other by auto. reflexivity. }
-        destruct (Put (PJ (JStr (prefix ++ e_uuid4 ev))) (Default _ ltac:(discriminate))) as (P1 & P2 & P3).
+        assert (SD : stored_default s (PJ (JStr (prefix ++ e_uuid4 ev)))) by (unfold stored_default; rewrite Ed, Ek; reflexivity).
+        destruct (Put (PJ (JStr (prefix ++ e_uuid4 ev))) (Default _ ltac:(discriminate) SD)) as (P1 & P2 & P3).
         split; [intros k x Hx; rewrite Eq in Hx; eauto|]. split; [|split; [|apply NoV]].
         * intros k Hk. unfold amem in *. rewrite Eq in Hk. apply P2. exact Hk.
         * intros k Hk. unfold amem in *. rewrite Eq. apply P3. exact Hk.
@@ -259,7 +273,8 @@ Section CompObj.
         { intros k pvv. destruct (ustr_eqb k n) eqn:E.
           - apply ustr_eqb_eq in E. subst k. rewrite !alookup_aset_same. reflexivity.
           - rewrite !alookup_aset_other by auto. reflexivity. }
-        destruct (Put (PJ (JBool b)) (Default _ ltac:(discriminate))) as (P1 & P2 & P3).
+        assert (SD : stored_default s (PJ (JBool b))) by (unfold stored_default; rewrite Ed; reflexivity).
+        destruct (Put (PJ (JBool b)) (Default _ ltac:(discriminate) SD)) as (P1 & P2 & P3).
         split; [intros k x Hx; rewrite Eq in Hx; eauto|]. split; [|split; [|apply NoV]].
         * intros k Hk. unfold amem in *. rewrite Eq in Hk. apply P2. exact Hk.
         * intros k Hk. unfold amem in *. rewrite Eq. apply P3. exact Hk.
